@@ -193,14 +193,15 @@ def prefixOf (n : List Char) : Option (List Char) :=
 
 /-- `textAttrs`: text-valued attributes -/
 def textAttrs : List (List Char) :=
-  [['u', 'n', 'i', 'c', 'o', 'd', 'e'], ['g', 'l', 'y', 'p', 'h', '-', 'n', 'a', 'm', 'e'], ['r', 'e', 's', 'u', 'l', 't'],
+  [['l', 'a', 'n', 'g'], ['u', 'n', 'i', 'c', 'o', 'd', 'e'], ['g', 'l', 'y', 'p', 'h', '-', 'n', 'a', 'm', 'e'], ['r', 'e', 's', 'u', 'l', 't'],
    ['i', 'n'], ['i', 'n', '2'], ['n', 'a', 'm', 'e'],
    ['s', 'y', 's', 't', 'e', 'm', 'L', 'a', 'n', 'g', 'u', 'a', 'g', 'e'], ['t', 'i', 't', 'l', 'e']]
 
 /-- `isNameAttr`: values that are identifiers / references / text, never lengths -/
 def isNameAttr (n : List Char) : Bool :=
   n == ['h', 'r', 'e', 'f'] || n == ['f', 'o', 'n', 't', '-', 'f', 'a', 'm', 'i', 'l', 'y'] || n == ['i', 'd'] ||
-  n == ['c', 'l', 'a', 's', 's'] || n.contains ':' || textAttrs.contains n
+  n == ['c', 'l', 'a', 's', 's'] || n.contains ':' ||
+  n.take 5 == ['d', 'a', 't', 'a', '-'] || n.take 5 == ['a', 'r', 'i', 'a', '-'] || textAttrs.contains n
 
 /-- the default-valued attributes that are dropped (`val` after the dimension rewrite; `mime` = `defaultStyleType`) -/
 def isDefaultAttr (o : SvgOpts) (tag mime n val : List Char) : Bool :=
@@ -230,6 +231,8 @@ def stripSvg (n : List Char) : List Char :=
 /-- planned output: a finished token, or a hole for `sub` / `path` -/
 inductive PTok
   | tok (t : STok)
+  | textTok (data : List Char)
+  | cdataTok (data text : List Char)
   | styleText (mime payload : List Char)
   | styleCData (mime data text : List Char)
   | styleAttr (name mime payload : List Char)
@@ -239,7 +242,14 @@ inductive PTok
 /-- an attribute as written: ` name=value` -/
 def mkAttr (n v : List Char) : STok := .attr (' ' :: (n ++ '=' :: v)) n (some v)
 
-/-- second half of the CDATA branch: `EscapeCDATAVal`; a section that becomes text is collapsed and trimmed -/
+/-- second half of the CDATA branch: `EscapeCDATAVal`; a section that becomes text is collapsed and trimmed and
+written through `escapeCDEnd` (`br` = number of `]` at the end of what was written so far, `bracketWriter.n`) -/
+def cdataOutAt (br : Nat) (data text : List Char) : STok :=
+  match escapeCDATAVal text with
+  | some e => .text (Verif.Model.Xml.escCD br (trimWs (collapseWs 0 e)))
+  | none => .cdata data text
+
+/-- the same without the `]]>` guard (shape only: used by the structural lemmas) -/
 def cdataOut (data text : List Char) : STok :=
   match escapeCDATAVal text with
   | some e => .text (trimWs (collapseWs 0 e))
@@ -337,10 +347,10 @@ def plan (num : List Char → List Char) (o : SvgOpts) : St → Nat → List STo
     | .doctype _ tx => (if (trimWs tx).getLast? == some ']' then [PTok.tok t] else []) ++ plan num o st 0 r
     | .text d =>
       let d1 := trimWs (replWsEnt XmlTables.entities XmlTables.textRev d)
-      (if st.tag == nStyle && !d1.isEmpty then PTok.styleText st.mime d1 else PTok.tok (.text d1)) ::
+      (if st.tag == nStyle && !d1.isEmpty then PTok.styleText st.mime d1 else PTok.textTok d1) ::
         plan num o st 0 r
     | .cdata d tx =>
-      (if st.tag == nStyle then PTok.styleCData st.mime d tx else PTok.tok (cdataOut d tx)) :: plan num o st 0 r
+      (if st.tag == nStyle then PTok.styleCData st.mime d tx else PTok.cdataTok d tx) :: plan num o st 0 r
     | .startTagPI n =>
       if n == ['x', 'm', 'l'] then plan num o st (piLen r) r
       else PTok.tok t :: ((r.take (piLen r)).map PTok.tok ++ plan num o st (piLen r) r)
@@ -365,9 +375,12 @@ def plan (num : List Char → List Char) (o : SvgOpts) : St → Nat → List STo
 def cdataOpen : List Char := ['<', '!', '[', 'C', 'D', 'A', 'T', 'A', '[']
 def cdataEnd : List Char := [']', ']', '>']
 
-/-- closing the holes -/
+/-- closing the holes, shape only (no `]]>` guard): which token is written; used by the structural lemmas, the
+element / attribute events of `emit` are those of `(plan …).map (fill e)` (`Proofs.SvgDoc.evsOut_emit`) -/
 def fill (e : Env) : PTok → STok
   | .tok t => t
+  | .textTok d => .text d
+  | .cdataTok d tx => cdataOut d tx
   | .styleText mime p => .text ((e.sub mime false p).getD p)
   | .styleCData mime d tx =>
     match e.sub mime false tx with
@@ -376,10 +389,41 @@ def fill (e : Env) : PTok → STok
   | .styleAttr n mime p => mkAttr n (escapeAttrVal ((e.sub mime true p).getD p))
   | .pathAttr n p => mkAttr n (escapeAttrVal (e.path p))
 
+/-- a request to a parameter: kind (`0` style element text, `1` style CDATA, `2` style attribute, `3` path),
+mime type, payload -/
+abbrev Req := Nat × List Char × List Char
+
+/-- `escapeCDEnd(b, n)` (same function as in `xml.go`, model owned by C06) -/
+def escCD := Verif.Model.Xml.escCD
+/-- number of `]` at the end of `pre ++ b` when `pre` ends with `n` of them (`bracketWriter.Write`) -/
+def brAfter := Verif.Model.Xml.brAfter
+
+/-- closing one hole when `br` brackets `]` end the output written so far: the token written and the request made.
+Character data (text token, CDATA section written as text) goes through `escapeCDEnd(·, bw.n)`; in a `style`
+element the text is escaped *before* it is handed to `sub`, whose result is written as it is. -/
+def fillAt (e : Env) (br : Nat) : PTok → STok × Option Req
+  | .tok t => (t, none)
+  | .textTok d => (.text (escCD br d), none)
+  | .cdataTok d tx => (cdataOutAt br d tx, none)
+  | .styleText mime p => (.text ((e.sub mime false (escCD br p)).getD (escCD br p)), some (0, mime, escCD br p))
+  | .styleCData mime d tx =>
+    (match e.sub mime false tx with
+     | some out => cdataOutAt br (cdataOpen ++ out ++ cdataEnd) out
+     | none => cdataOutAt br d tx, some (1, mime, tx))
+  | .styleAttr n mime p => (mkAttr n (escapeAttrVal ((e.sub mime true p).getD p)), some (2, mime, p))
+  | .pathAttr n p => (mkAttr n (escapeAttrVal (e.path p)), some (3, [], p))
+
+/-- closing the holes from left to right; the bracket count follows the bytes written (`bracketWriter`),
+including the results of `sub` -/
+def fillGo (e : Env) : Nat → List PTok → List (STok × Option Req)
+  | _, [] => []
+  | br, p :: r => fillAt e br p :: fillGo e (brAfter br (fillAt e br p).1.render) r
+
 def st0 : St := { tag := [], mime := cssMime }
 
 /-- tokens written by `svg.Minify` for the token stream `ts` -/
-def emit (e : Env) (o : SvgOpts) (ts : List STok) : List STok := (plan e.num o st0 0 ts).map (fill e)
+def emit (e : Env) (o : SvgOpts) (ts : List STok) : List STok :=
+  (fillGo e 0 (plan e.num o st0 0 ts)).map (·.1)
 
 /-- output bytes of `svg.Minify` -/
 def svgMinify (e : Env) (o : SvgOpts) (ts : List STok) : List Char := (emit e o ts).flatMap STok.render
@@ -388,15 +432,10 @@ def svgMinify (e : Env) (o : SvgOpts) (ts : List STok) : List Char := (emit e o 
 def svgMinify' (o : SvgOpts) (sub : List Char → Bool → List Char → Option (List Char))
     (path num : List Char → List Char) (ts : List STok) : List Char := svgMinify ⟨sub, path, num⟩ o ts
 
-/-- a request to a parameter: kind (`0` style element text, `1` style CDATA, `2` style attribute, `3` path),
-mime type, payload -/
-def requests (num : List Char → List Char) (o : SvgOpts) (ts : List STok) : List (Nat × List Char × List Char) :=
-  (plan num o st0 0 ts).filterMap fun
-    | .tok _ => none
-    | .styleText m p => some (0, m, p)
-    | .styleCData m _ t => some (1, m, t)
-    | .styleAttr _ m p => some (2, m, p)
-    | .pathAttr _ p => some (3, [], p)
+/-- the requests made to the parameters while the output is written with `e` (a payload of style element text
+depends, through the bracket count, on what earlier requests returned: the harness iterates to a fixed point) -/
+def requests (e : Env) (o : SvgOpts) (ts : List STok) : List Req :=
+  (fillGo e 0 (plan e.num o st0 0 ts)).filterMap (·.2)
 
 /-! ## modelled domain -/
 
